@@ -79,7 +79,9 @@ CHECKS = {
 
 # later additions to a check, appended to its level text (see DESIGN.md §5 for each)
 ADDENDA_3 = {
-    "C01": " The N family pads messages up to 40 kB (frames reach the server's decoder in several reads).",
+    "C01": " The N family pads messages up to 40 kB (frames reach the server's decoder in several reads). Chaos family: continuous traffic under seeded closes, partitions and server restarts; no subscriber may yield a foreign or duplicated message, and messages sent away from their publisher's outages arrive in order.",
+    "C04": " Chaos family: under seeded closes, partitions and server restarts every Ok reply must answer its own call.",
+    "C12": " Chaos family: once the seeded faults have stopped, every stream that kept its retry budget delivers / is answered again within 25 virtual seconds.",
     "C02": " A requestor whose request stream ended but whose sink works (half-closed) stays owed its replies; the departures family runs for C02 too.",
     "C03": " A quarter of the runs have subscriber churn around the judged subscribers; a client stream dropped by the server on a loss-free network is a violation.",
     "C06": " Long runs (up to 40000) of well-formed frames that carry nothing, with the victim on a 2 MiB stack; hostile-server family: the real client against a raw endpoint answering registrations with crafted Error texts (long, multi-byte across cut-offs, not UTF-8), wrong-kind frames, non-frames, nothing.",
